@@ -69,3 +69,8 @@ From PV Require Import Base.NumF Base.NumFOrd.
 Definition C04_pdomb_is_pareto_float := C04_pdomb_is_pareto Fn fin Fn_ord.
 Definition C04_infeasible_by_cv_float := C04_infeasible_by_cv Fn fin Fn_ord.
 Print Assumptions C04_pdomb_is_pareto_float.
+
+(* ... and on all binary64 values but NaN (infinite objective values included) *)
+Definition C04_pdomb_is_pareto_float_nn := C04_pdomb_is_pareto Fn nonnanf Fn_ord_nn.
+Definition C04_infeasible_by_cv_float_nn := C04_infeasible_by_cv Fn nonnanf Fn_ord_nn.
+Print Assumptions C04_pdomb_is_pareto_float_nn.
